@@ -22,6 +22,9 @@ DIRS = [('SKIP', True, None), ('SKIP', False, None),
         ('REQUIRES', True, UA), ('REQUIRES', False, UA),
         ('REQUIRES', True, UB), ('REQUIRES', False, UB),
         ('IGNORE_WANT', True, None)]
+# one directive listing several conditions (met ones before, between and after unmet ones)
+MULTI_DIRS = [('REQUIRES', sign, ', '.join(args)) for sign in (True, False)
+              for args in ((MET, UA), (UA, MET), (MET, UA, UB), (UA, MET, UB), (UB, UA), (MET, MET, UB), ('module:sys', UA))]
 PRELUDE = gendoc.PRELUDE + '''
 def tr(k):
     def deco(f):
@@ -50,14 +53,16 @@ def a_apply(state, d):
     if name == 'SKIP':
         return (pos, pend)
     if name == 'REQUIRES':
-        if met(arg):
-            return state
+        # several comma-separated conditions in one directive: each of them on its own, in any order
         pend = list(pend)
-        if pos:
-            if arg not in pend:
-                pend.append(arg)
-        elif arg in pend:
-            pend.remove(arg)
+        for a in [x.strip() for x in arg.split(',')]:
+            if met(a):
+                continue
+            if pos:
+                if a not in pend:
+                    pend.append(a)
+            elif a in pend:
+                pend.remove(a)
         return (skip, tuple(pend))
     return state
 
@@ -336,6 +341,15 @@ def run(ctx):
                     lines += ['>>> # xdoctest: %s' % skipdir.replace('+', '-', 1)]
                 lines += [">>> print('late', t(12))", 'early 10', 'late 12']
                 cases.append(dict(doc='\n'.join(lines), expect=[10, 12], events=[('stmt', [], 10), ('stmt', [], 12)]))
+    # directives that list several conditions
+    rng = ctx.rng('multi')
+    for _ in range(150 if ctx.tier == 'quick' else 2500):
+        events = [('stmt', [], 40)]
+        for q in range(rng.randint(1, 4)):
+            if rng.random() < 0.6:
+                events.append(('block', [rng.choice(MULTI_DIRS + DIRS[2:8])]))
+            events.append(('stmt', [rng.choice(MULTI_DIRS)] if rng.random() < 0.35 else [], 41 + q))
+        cases.append(dict(doc=render(events, SHAPES[:3] + ['want']), expect=spec_trace(events), events=events))
     # histories over one shared options dict (quantifier: histories x configurations)
     hists = []
     rng = ctx.rng('histories')
